@@ -237,6 +237,10 @@ def cpu_guard(limit):
 
 
 def _guarded(fn, limit, x):
+    if os.environ.get("VERIF_DEBUG_FAULT"):
+        import faulthandler
+        import signal
+        faulthandler.register(signal.SIGUSR1, file=open(f"/tmp/fault-{os.getpid()}.txt", "w"), all_threads=True)
     try:
         cpu_guard(limit)
         try:
